@@ -1,5 +1,260 @@
-(* C15 property theorems (placeholder until the closure development lands). *)
-From DD Require Import Spec.StdReader.
-Theorem leaf_ok_nonempty : leaf_ok [] = false.
-Proof. reflexivity. Qed.
-Print Assumptions leaf_ok_nonempty.
+(* C15 property theorems: every proposed simplification consists of leaves that
+   are single tokens, so that the tree kept in memory equals what a reader
+   parses from the file that was written.
+   K1: well-formedness is a property of the token sequence.
+   K2: the token specification of substitute yields single tokens when the
+       input and the replacement values consist of single tokens.
+   K3/K4: the result of substitute / apply_simp is well formed and is read back
+       unchanged from each of the four renderings.
+   K5: each modelled rewrite proposes replacements that are well formed when
+       the rewritten node is (subterms and freshly written atoms).
+   Proofs are in Proofs/Closure. *)
+From DD Require Import Base.Lit Model.Subst Model.Lexer Model.Writer Model.Rewrites Spec.StdReader.
+From DD Require Import Proofs.Subst.SubstBase Proofs.Subst.SubstTokens Proofs.Subst.SubstClosed.
+From DD Require Import Proofs.Closure.Tokens Proofs.Closure.Closed Proofs.Closure.Atoms
+  Proofs.Closure.RwClosed Proofs.Closure.Examples.
+Local Open Scope list_scope.
+Local Open Scope Z_scope.
+
+(* ---- K1 ---- *)
+Theorem wf_iff_tokens : forall e,
+  wf e = true <-> Forall (fun x => lex_ok x = true) (flat e).
+Proof. exact wf_iff_tokens_proof. Qed.
+Print Assumptions wf_iff_tokens.
+
+Theorem wfs_iff_tokens : forall es,
+  forallb wf es = true <-> Forall (fun x => lex_ok x = true) (flats es).
+Proof. exact wfs_iff_tokens_proof. Qed.
+Print Assumptions wfs_iff_tokens.
+
+Theorem flats_shape : forall l, flats (map shape l) = flat_map toks l.
+Proof. exact flats_shape_proof. Qed.
+Print Assumptions flats_shape.
+
+(* ---- K2 ---- *)
+Theorem spec_toks_ok : forall hstr ri rs l,
+  forallb wf (map shape l) = true ->
+  (forall v, In v (vals_i ri ++ vals_s rs) -> wf (shape v) = true) ->
+  Forall (fun x => lex_ok x = true) (flat_map (spec_toks hstr ri rs) l).
+Proof. exact spec_toks_ok_proof. Qed.
+Print Assumptions spec_toks_ok.
+
+(* ---- K3 ---- *)
+Theorem closed_apply : forall hstr htup l ri rs next,
+  NoDup (ids_l l) ->
+  (forall j, In j (ids_l l) -> j <= next) ->
+  (forall v x y, In v (vals_i ri ++ vals_s rs) -> In x (subnodes v) -> In y (subnodes_l l) ->
+                 nid x = nid y -> shape x = shape y) ->
+  forallb wf (map shape l) = true ->
+  (forall v, In v (vals_i ri ++ vals_s rs) -> wf (shape v) = true) ->
+  let r := snd (fst (substitute hstr htup l ri rs next)) in
+  forallb wf (map shape r) = true /\
+  parse (w_check (map shape r)) = map shape r /\
+  parse (w_default (map shape r)) = map shape r /\
+  parse (w_pretty (map shape r)) = map shape r /\
+  parse (w_wrap (map shape r)) = map shape r.
+Proof. exact closed_apply_proof. Qed.
+Print Assumptions closed_apply.
+
+(* ---- K4 ---- *)
+Theorem closed_apply_simp : forall hstr htup l ri rs vars next,
+  NoDup (ids_l l) ->
+  (forall j, In j (ids_l l) -> j <= next) ->
+  (forall v x y, In v (vals_i ri ++ vals_s rs) -> In x (subnodes v) -> In y (subnodes_l l) ->
+                 nid x = nid y -> shape x = shape y) ->
+  forallb wf (map shape l) = true ->
+  (forall v, In v (vals_i ri ++ vals_s rs) -> wf (shape v) = true) ->
+  forallb wf (map shape vars) = true ->
+  let r := snd (fst (apply_simp hstr htup l ri rs vars next)) in
+  forallb wf (map shape r) = true /\
+  parse (w_check (map shape r)) = map shape r /\
+  parse (w_default (map shape r)) = map shape r /\
+  parse (w_pretty (map shape r)) = map shape r /\
+  parse (w_wrap (map shape r)) = map shape r.
+Proof. exact closed_apply_simp_proof. Qed.
+Print Assumptions closed_apply_simp.
+
+(* the result of apply_simp is the substituted list, possibly with the
+   declarations inserted after a prefix of set-info / set-logic commands *)
+Theorem apply_simp_shape : forall hstr htup l ri rs vars next,
+  let s := snd (fst (substitute hstr htup l ri rs next)) in
+  let r := snd (fst (apply_simp hstr htup l ri rs vars next)) in
+  r = s \/ exists pre post, s = pre ++ post /\ r = pre ++ vars ++ post /\
+                            forallb is_prefix_cmd pre = true.
+Proof. exact apply_simp_shape_proof. Qed.
+Print Assumptions apply_simp_shape.
+
+(* ---- K5: freshly written numerals ---- *)
+Theorem to_dec_digits : forall n, forallb is_digit (to_dec n) = true /\ to_dec n <> [].
+Proof. exact to_dec_digits_proof. Qed.
+Print Assumptions to_dec_digits.
+
+Theorem to_bin_digits : forall n, forallb is_digit (to_bin n) = true /\ to_bin n <> [].
+Proof. exact to_bin_digits_proof. Qed.
+Print Assumptions to_bin_digits.
+
+Theorem digits_leaf : forall s, s <> [] -> forallb is_digit s = true -> leaf_ok s = true.
+Proof. exact digits_leaf_proof. Qed.
+Print Assumptions digits_leaf.
+
+Theorem z_to_dec_is_leaf : forall z, leaf_ok (z_to_dec z) = true.
+Proof. exact z_to_dec_leaf. Qed.
+Print Assumptions z_to_dec_is_leaf.
+
+Theorem bv_name_is_leaf : forall z, leaf_ok (lit "bv" ++ z_to_dec z) = true.
+Proof. exact bv_name_leaf. Qed.
+Print Assumptions bv_name_is_leaf.
+
+Theorem bin_lit_is_leaf : forall ds, forallb is_digit ds = true -> leaf_ok (cHASH :: c_b :: ds) = true.
+Proof. exact bin_lit_leaf. Qed.
+Print Assumptions bin_lit_is_leaf.
+
+(* ---- K5: per-rewrite closure ---- *)
+Theorem rw_bool_double_neg_wf : forall e l e',
+  wf e = true -> rw_bool_double_neg e = Some l -> In e' l -> wf e' = true.
+Proof. exact rw_bool_double_neg_closed. Qed.
+Print Assumptions rw_bool_double_neg_wf.
+
+Theorem rw_bool_de_morgan_wf : forall e l e',
+  wf e = true -> rw_bool_de_morgan e = Some l -> In e' l -> wf e' = true.
+Proof. exact rw_bool_de_morgan_closed. Qed.
+Print Assumptions rw_bool_de_morgan_wf.
+
+Theorem rw_bool_false_eq_wf : forall e l e',
+  wf e = true -> rw_bool_false_eq e = Some l -> In e' l -> wf e' = true.
+Proof. exact rw_bool_false_eq_closed. Qed.
+Print Assumptions rw_bool_false_eq_wf.
+
+Theorem rw_bool_implication_wf : forall e l e',
+  wf e = true -> rw_bool_implication e = Some l -> In e' l -> wf e' = true.
+Proof. exact rw_bool_implication_closed. Qed.
+Print Assumptions rw_bool_implication_wf.
+
+Theorem rw_bool_xor_binary_wf : forall e l e',
+  wf e = true -> rw_bool_xor_binary e = Some l -> In e' l -> wf e' = true.
+Proof. exact rw_bool_xor_binary_closed. Qed.
+Print Assumptions rw_bool_xor_binary_wf.
+
+Theorem rw_arith_negate_relation_wf : forall e l e',
+  wf e = true -> rw_arith_negate_relation e = Some l -> In e' l -> wf e' = true.
+Proof. exact rw_arith_negate_relation_closed. Qed.
+Print Assumptions rw_arith_negate_relation_wf.
+
+Theorem rw_bv_normalize_wf : forall e l e',
+  wf e = true -> rw_bv_normalize e = Some l -> In e' l -> wf e' = true.
+Proof. exact rw_bv_normalize_closed. Qed.
+Print Assumptions rw_bv_normalize_wf.
+
+Theorem rw_bv_double_neg_wf : forall e l e',
+  wf e = true -> rw_bv_double_neg e = Some l -> In e' l -> wf e' = true.
+Proof. exact rw_bv_double_neg_closed. Qed.
+Print Assumptions rw_bv_double_neg_wf.
+
+Theorem rw_bv_elim_bvcomp_wf : forall bw e l e',
+  wf e = true -> rw_bv_elim_bvcomp bw e = Some l -> In e' l -> wf e' = true.
+Proof. exact rw_bv_elim_bvcomp_closed. Qed.
+Print Assumptions rw_bv_elim_bvcomp_wf.
+
+Theorem rw_bv_eval_extend_wf : forall e l e',
+  wf e = true -> rw_bv_eval_extend e = Some l -> In e' l -> wf e' = true.
+Proof. exact rw_bv_eval_extend_closed. Qed.
+Print Assumptions rw_bv_eval_extend_wf.
+
+Theorem rw_bv_extract_const_wf : forall e l e',
+  wf e = true -> rw_bv_extract_const e = Some l -> In e' l -> wf e' = true.
+Proof. exact rw_bv_extract_const_closed. Qed.
+Print Assumptions rw_bv_extract_const_wf.
+
+Theorem rw_bv_extract_zext_wf : forall bw e l e',
+  wf e = true -> rw_bv_extract_zext bw e = Some l -> In e' l -> wf e' = true.
+Proof. exact rw_bv_extract_zext_closed. Qed.
+Print Assumptions rw_bv_extract_zext_wf.
+
+Theorem rw_bv_ite_to_bvcomp_wf : forall p e l e',
+  wf e = true -> rw_bv_ite_to_bvcomp p e = Some l -> In e' l -> wf e' = true.
+Proof. exact rw_bv_ite_to_bvcomp_closed. Qed.
+Print Assumptions rw_bv_ite_to_bvcomp_wf.
+
+Theorem rw_bv_reflexive_nand_wf : forall e l e',
+  wf e = true -> rw_bv_reflexive_nand e = Some l -> In e' l -> wf e' = true.
+Proof. exact rw_bv_reflexive_nand_closed. Qed.
+Print Assumptions rw_bv_reflexive_nand_wf.
+
+Theorem rw_bv_merge_extend_wf : forall e l e',
+  wf e = true -> rw_bv_merge_extend e = Some l -> In e' l -> wf e' = true.
+Proof. exact rw_bv_merge_extend_closed. Qed.
+Print Assumptions rw_bv_merge_extend_wf.
+
+(* ---- examples ---- *)
+
+(* the hypotheses of K3/K4 hold for: input (set-logic QF_LIA) (assert (> x 1)),
+   the leaf x (identity 6) replaced by (+ y 2), y declared *)
+Example closed_apply_ex_hyps :
+  NoDup (ids_l ex_input) /\
+  (forall j, In j (ids_l ex_input) -> j <= ex_next) /\
+  (forall v x y, In v (vals_i ex_ri ++ vals_s []) -> In x (subnodes v) ->
+                 In y (subnodes_l ex_input) -> nid x = nid y -> shape x = shape y) /\
+  forallb wf (map shape ex_input) = true /\
+  (forall v, In v (vals_i ex_ri ++ vals_s []) -> wf (shape v) = true) /\
+  forallb wf (map shape ex_vars) = true.
+Proof. exact (conj ex_nodup (conj ex_bound (conj ex_coherent (conj ex_input_wf (conj ex_vals_wf ex_vars_wf))))). Qed.
+
+(* K3 applied to it *)
+Example closed_apply_ex :
+  let r := snd (fst (substitute ex_hs ex_ht ex_input ex_ri [] ex_next)) in
+  forallb wf (map shape r) = true /\
+  parse (w_check (map shape r)) = map shape r /\
+  parse (w_default (map shape r)) = map shape r /\
+  parse (w_pretty (map shape r)) = map shape r /\
+  parse (w_wrap (map shape r)) = map shape r.
+Proof.
+  exact (closed_apply ex_hs ex_ht ex_input ex_ri [] ex_next
+           ex_nodup ex_bound ex_coherent ex_input_wf ex_vals_wf).
+Qed.
+
+(* K4 applied to it *)
+Example closed_apply_simp_ex :
+  let r := snd (fst (apply_simp ex_hs ex_ht ex_input ex_ri [] ex_vars ex_next)) in
+  forallb wf (map shape r) = true /\
+  parse (w_check (map shape r)) = map shape r /\
+  parse (w_default (map shape r)) = map shape r /\
+  parse (w_pretty (map shape r)) = map shape r /\
+  parse (w_wrap (map shape r)) = map shape r.
+Proof.
+  exact (closed_apply_simp ex_hs ex_ht ex_input ex_ri [] ex_vars ex_next
+           ex_nodup ex_bound ex_coherent ex_input_wf ex_vals_wf ex_vars_wf).
+Qed.
+
+(* the same by computation, with the resulting trees *)
+Example closed_apply_ex_compute :
+  let r := snd (fst (substitute ex_hs ex_ht ex_input ex_ri [] ex_next)) in
+  let r' := snd (fst (apply_simp ex_hs ex_ht ex_input ex_ri [] ex_vars ex_next)) in
+  map shape r = [ T [lf "set-logic"; lf "QF_LIA"];
+                  T [lf "assert"; T [lf ">"; T [lf "+"; lf "y"; lf "2"]; lf "1"]] ] /\
+  map shape r' = [ T [lf "set-logic"; lf "QF_LIA"];
+                   T [lf "declare-const"; lf "y"; lf "Int"];
+                   T [lf "assert"; T [lf ">"; T [lf "+"; lf "y"; lf "2"]; lf "1"]] ] /\
+  parse (w_check (map shape r)) = map shape r /\ parse (w_default (map shape r)) = map shape r /\
+  parse (w_pretty (map shape r)) = map shape r /\ parse (w_wrap (map shape r)) = map shape r /\
+  parse (w_check (map shape r')) = map shape r' /\ parse (w_default (map shape r')) = map shape r' /\
+  parse (w_pretty (map shape r')) = map shape r' /\ parse (w_wrap (map shape r')) = map shape r'.
+Proof. vm_compute. repeat split; reflexivity. Qed.
+
+(* the hypothesis on the replacement values is needed: a value whose leaf is
+   the text of two tokens is one leaf in memory and two leaves in the file *)
+Example closed_apply_needs_wf :
+  let r := snd (fst (substitute ex_hs ex_ht ex_input [(6, Some (NL 10 (lit "y z")))] [] ex_next)) in
+  wf (L (lit "y z")) = false /\
+  map shape r = [ T [lf "set-logic"; lf "QF_LIA"]; T [lf "assert"; T [lf ">"; lf "y z"; lf "1"]] ] /\
+  parse (w_check (map shape r))
+    = [ T [lf "set-logic"; lf "QF_LIA"]; T [lf "assert"; T [lf ">"; lf "y"; lf "z"; lf "1"]] ].
+Proof. vm_compute. repeat split; reflexivity. Qed.
+
+(* rewrites that write numerals, evaluated *)
+Example rw_closed_ex :
+  rw_bv_normalize (lf "#b101") = Some [T [lf "_"; lf "bv5"; lf "3"]] /\
+  rw_bv_extract_const (T [T [lf "_"; lf "extract"; lf "2"; lf "1"]; lf "#b0110"]) = Some [lf "#b11"] /\
+  rw_bv_eval_extend (T [T [lf "_"; lf "sign_extend"; lf "2"]; lf "#b10"]) = Some [lf "#b1110"] /\
+  rw_bool_de_morgan (T [lf "not"; T [lf "and"; lf "a"; lf "b"]])
+    = Some [T [lf "or"; T [lf "not"; lf "a"]; T [lf "not"; lf "b"]]].
+Proof. vm_compute. repeat split; reflexivity. Qed.
